@@ -11,9 +11,9 @@ git -C /repo worktree add -q "$wt" HEAD || exit 3
 demo=$(ls "$d"/demo*_test.go 2>/dev/null | head -1)
 [ -n "$demo" ] || { echo "CONFIRM no demo test in $d"; git -C /repo worktree remove --force "$wt"; exit 3; }
 cp "$demo" "$wt/$pkg/zz_seed_demo_test.go"
-( cd "$wt" && go test -vet=off -count=1 "./$pkg/" >/tmp/confirm-clean.log 2>&1 ); clean=$?
+( cd "$wt" && go test ${RACEFLAG:-} -vet=off -count=1 "./$pkg/" >/tmp/confirm-clean.log 2>&1 ); clean=$?
 git -C "$wt" apply "$d/patch.diff" || { echo "CONFIRM patch does not apply"; git -C /repo worktree remove --force "$wt"; exit 3; }
-( cd "$wt" && go test -vet=off -count=1 "./$pkg/" >/tmp/confirm-patched.log 2>&1 ); patched=$?
+( cd "$wt" && go test ${RACEFLAG:-} -vet=off -count=1 "./$pkg/" >/tmp/confirm-patched.log 2>&1 ); patched=$?
 rm "$wt/$pkg/zz_seed_demo_test.go"
 ( cd "$wt" && go test -vet=off -count=1 ./... >/tmp/confirm-suite.log 2>&1 ); suite=$?
 echo "CONFIRM $dest demo-on-clean-exit=$clean demo-with-patch-exit=$patched suite-with-patch-exit=$suite"
